@@ -232,6 +232,15 @@ def r16_5(ctx):
         for l in state_locals:
             for loc, k in rd.all_sites(l):
                 if loc[0] in region:
+                    # an idempotent reset (`draw_table.clear()`) in another arm is harmless: `position`
+                    # clears and rebuilds anyway; it is the one modification tolerated here
+                    uses_clear = any(b.term(x)["k"] == "call" and (callee_of(b.term(x)) or "").endswith("DrawTable::clear") and
+                                     (operand_alias(b, b.term(x)["args"][0]) or (None,))[0] == l for x in region)
+                    only_clear = k == "borrow" and uses_clear and not any(
+                        b.term(x)["k"] == "call" and (operand_alias(b, a) or (None,))[0] == l and not (callee_of(b.term(x)) or "").endswith("DrawTable::clear")
+                        for x in region for a in b.term(x).get("args", []))
+                    if only_clear:
+                        continue
                     touched.append((b.names[l], loc))
         ctx.ob("arm(%s):leaves-state-alone" % cmd, not touched, b.where(b.term_loc(s)),
                "`%s` modifies: %s" % (cmd, [(n, b.where(loc)) for n, loc in touched]))
@@ -304,3 +313,80 @@ def r17_2(ctx):
     else:
         s, tt, ft = am["quit"]
         ctx.ob("arm(quit):exits", exits_process(b, tt), b.where(b.term_loc(s)), "every path through the quit arm ends the process")
+
+
+def r17_6(ctx):
+    """No panic edge in the command loop outside the position/go arms: whatever the line is, reading
+    it, splitting it and dispatching on its first word cannot terminate the engine.  (What position and
+    go do with their own arguments belongs to C04/C09/C15.)"""
+    from .fen import VEC_INDEX, UNWRAPS, _i1_vec_index
+    from wa.absint import Intervals
+    f = ctx.facts
+    b = f.body(LOOP_FN)
+    ctx.note_fn(LOOP_FN)
+    ex = Exprs(b)
+    h, loop = command_loop(b, ex)
+    am = arms(b, ex, loop)
+    own = set()
+    for cmd in ("position", "go"):
+        if cmd in am:
+            s, tt, ft = am[cmd]
+            own |= {x for x in loop if b.edge_dominates((s, tt), x) or x == tt}
+    region = {x for x in loop if x not in own and x in b.reachable}
+    iv = None
+    n = 0
+    cnt = {}
+    for bb in sorted(region):
+        t = b.term(bb)
+        if t["k"] == "assert":
+            n += 1
+            kind = t["assert_kind"]
+            cnt[kind] = cnt.get(kind, 0) + 1
+            iv = iv or Intervals(b)
+            ok, d = iv.assert_holds(bb)
+            ctx.ob("loop:assert:%s#%d" % (kind, cnt[kind]), ok, b.where(b.term_loc(bb)), d if ok else "a %s panic is possible while dispatching a line: %s" % (kind, b.text_at(b.term_loc(bb))[:80]))
+        elif t["k"] == "call":
+            c = callee_of(t) or ""
+            if c == VEC_INDEX or c.endswith("as std::ops::Index<I>>::index"):
+                n += 1
+                cnt["index"] = cnt.get("index", 0) + 1
+                args = ex.call_args(bb)
+                how = None
+                # I5: `line.split(..).collect::<Vec<_>>()[0]` — split yields at least one item
+                if len(args) == 2 and args[1] == ("const", 0):
+                    sl = list(data_slice(ex, strip_refs(args[0])))
+                    if any(y[0] == "call" and y[1] == "std::iter::Iterator::collect" and any(
+                            z[0] == "call" and z[1] in ("core::str::<impl str>::split", "core::str::<impl str>::split_whitespace_never") for z in subexprs(y)) for y in sl):
+                        how = "I5: element 0 of a collected `str::split`, which always yields at least one item"
+                how = how or _i1_vec_index(b, ex, bb, t)
+                what = show_expr(args[1], b) if len(args) == 2 else "?"
+                ctx.ob("loop:index[%s]" % what, how is not None, b.where(b.term_loc(bb)),
+                       how or "`%s` is not covered by a length guard: a line with fewer words panics the engine instead of being ignored" % b.text_at(b.term_loc(bb))[:80])
+            elif c in UNWRAPS:
+                n += 1
+                ctx.ob("loop:%s" % c.split("::")[-1], False, b.where(b.term_loc(bb)),
+                       "`%s` while dispatching a line: a line for which the value is None/Err terminates the engine" % b.text_at(b.term_loc(bb))[:80])
+    ctx.floor("panic sites examined in the command loop", n, 1)
+
+
+def r17_7(ctx):
+    """read_from_gui hands out whole lines: the read_line receiver is the process's stdin (lock) itself,
+    not a length-limiting or otherwise re-framing adaptor, so the rest of a long line is never taken for a
+    new command."""
+    f = ctx.facts
+    b = f.body(READ)
+    ctx.note_fn(READ)
+    n = 0
+    for bb, t in b.iter_calls():
+        c = callee_of(t) or ""
+        if not c.endswith("::read_line"):
+            continue
+        n += 1
+        a = t["args"][0]
+        ty = b.local_ty(a["place"]["local"]) if a.get("place") else "?"
+        base = ty.replace("&mut ", "").replace("&", "")
+        ok = base.startswith("std::io::StdinLock") or base == "std::io::Stdin"
+        ctx.ob("read_from_gui:line-framing", ok, b.where(b.term_loc(bb)),
+               "read_line on `%s`%s" % (base, "" if ok else ": an adaptor between stdin and read_line can end a read in the middle of a line, and the remainder is then dispatched as a command of its own"))
+    if n == 0:
+        raise AnchorMissing("no read_line call in %s" % READ)
